@@ -38,7 +38,7 @@ func init() {
 
 func init() {
 	Properties["C14"] = PropertySpec{
-		Rules: []string{"R-LOCK", "R-WRITERS", "R-GLOBAL"},
+		Rules: []string{"R-LOCK", "R-WRITERS", "R-READONLY", "R-SYNCED", "R-GLOBAL"},
 		Explanation: "Race freedom of concurrent read-only queries, reduced to its structural conditions: the status word is atomic, the mutex is balanced and never re-entered, readers take the fast path only after observing 'fresh', " +
 			"'fresh' is published last, and the shared index state is written only under the mutex or by documented single-threaded mutators.",
 		NotCovered: "serial equivalence of the answers themselves; liveness beyond lock re-entrancy; races in caller code.",
